@@ -227,6 +227,9 @@ func Build(dir string, plans []*Plan, needWorker bool) (*Workspace, error) {
 	cmd.Dir = dir
 	cmd.Env = goEnv()
 	out, err := cmd.CombinedOutput()
+	if err != nil && (bytes.Contains(out, []byte("no space left on device")) || bytes.Contains(out, []byte("cannot allocate memory"))) {
+		return nil, fmt.Errorf("go build of generated code failed for lack of resources, not because of the code: %s", firstLines(out, 3))
+	}
 	if err != nil {
 		// attribute diagnostics to packages
 		cur := ""
@@ -328,6 +331,9 @@ func BuildSources(dir string, srcs map[string][]byte) (map[string]string, error)
 	cmd.Dir = dir
 	cmd.Env = goEnv()
 	out, err := cmd.CombinedOutput()
+	if err != nil && (bytes.Contains(out, []byte("no space left on device")) || bytes.Contains(out, []byte("cannot allocate memory"))) {
+		return nil, fmt.Errorf("go build of generated code failed for lack of resources, not because of the code: %s", firstLines(out, 3))
+	}
 	if err != nil {
 		cur, found := "", false
 		for _, line := range strings.Split(string(out), "\n") {
@@ -345,4 +351,12 @@ func BuildSources(dir string, srcs map[string][]byte) (map[string]string, error)
 		}
 	}
 	return diag, nil
+}
+
+func firstLines(b []byte, n int) string {
+	ls := strings.SplitN(string(b), "\n", n+1)
+	if len(ls) > n {
+		ls = ls[:n]
+	}
+	return strings.Join(ls, " | ")
 }
